@@ -399,6 +399,65 @@ def check_adopted_proposal(chk):
             shutil.rmtree(tmp, ignore_errors=True)
 
 
+def check_real_flow_refit(chk, quick):
+    """a REAL proposal (zuko; flowjax too in the thorough tier) fitted a SECOND time on the same object before anything is written: what the
+    checkpoint file then holds as `flow` is the proposal the stored particles were weighted under - reloaded from the file, it reproduces
+    their stored log q (direct oracle; the Lean session model abstracts a proposal to a version number)"""
+    import h5py
+    import torch
+
+    from aspire import Aspire
+    from aspire.flows import get_flow_wrapper
+    from aspire.samples import Samples
+
+    for backend in (("zuko",) if quick else ("zuko", "flowjax")):
+        for seq in ("fit;fit;smc->F", "fit;smc->F;fit;smc->F"):
+            tmp = tempfile.mkdtemp(prefix="aspire_verif_")
+            case = {"level": "real_flow_refit", "backend": backend, "sequence": seq}
+            chk.count("real_flow_refit")
+            chk.case(None, json.dumps(case))
+            try:
+                from .. import ns as _ns
+                if backend == "flowjax":
+                    _ns.enable_x64()
+                t = smcrun.Target(2, center=0.4, width=0.8, half=6.0)
+                a = Aspire(log_likelihood=t.log_likelihood, log_prior=t.log_prior, dims=2, parameters=["p0", "p1"],
+                           prior_bounds={"p0": [-6.0, 6.0], "p1": [-6.0, 6.0]}, flow_backend=backend, dtype="float64", **({"seed": 7} if backend == "zuko" else {}))
+                r = np.random.default_rng(3)
+                fk = {"n_epochs": 2} if backend == "zuko" else {"max_epochs": 2}
+                A = Samples(x=r.normal(-1.0, 0.5, (300, 2)), parameters=["p0", "p1"])
+                B = Samples(x=r.normal(1.5, 1.6, (300, 2)), parameters=["p0", "p1"])
+                path = os.path.join(tmp, "F.h5")
+                skw = dict(n_samples=24, sampler="smc", sampler_kwargs={"n_steps": 1}, adaptive=False, n_steps=2, checkpoint_path=path, checkpoint_every=1)
+                a.fit(A, **fk)
+                if seq.startswith("fit;smc"):
+                    with al.orng_seed(4), torch.no_grad():
+                        a.sample_posterior(**skw)
+                a.fit(B, **fk)
+                with al.orng_seed(5), torch.no_grad():
+                    _, hist = a.sample_posterior(return_history=True, **skw)
+                smp = hist.sample_history[-1]
+                F, fxp = get_flow_wrapper(backend)
+                with h5py.File(path, "r") as h:
+                    f2 = F.load(h, "flow")
+                x, lq = _ns.to_np(smp.x), _ns.to_np(smp.log_q)
+                with torch.no_grad():
+                    ref = _ns.to_np(f2.log_prob(torch.as_tensor(x, dtype=torch.float64) if backend == "zuko" else fxp.asarray(x)))
+                    mem = _ns.to_np(a.flow.log_prob(torch.as_tensor(x, dtype=torch.float64) if backend == "zuko" else fxp.asarray(x)))
+                if not np.allclose(lq, mem, rtol=1e-6, atol=1e-6):
+                    chk.count("real_flow_refit:in_memory_proposal_differs")      # C10's subject, counted only
+                if not np.allclose(lq, ref, rtol=1e-5, atol=1e-5):
+                    j = int(np.argmax(np.abs(lq - ref)))
+                    chk.fail("the stored proposal and configuration belong to the stored checkpoint", case,
+                             f"{seq} ({backend}): particle {j} stores log q = {lq[j]!r}, the proposal reloaded from the file gives {ref[j]!r} "
+                             f"(max deviation {np.max(np.abs(lq - ref)):.3g} nats; the in-memory proposal gives {mem[j]!r})",
+                             {"clause": "flow_vs_logq", "real_flow": backend, "model_predicts": False})
+            except Exception as e:   # noqa
+                chk.fail("run total", case, repr(e)[:300], {"clause": "raise", "real_flow": backend})
+            finally:
+                shutil.rmtree(tmp, ignore_errors=True)
+
+
 def run(chk: core.Check):
     r = np.random.default_rng(chk.seed + 14014)
     quick = chk.tier == "quick"
@@ -467,6 +526,7 @@ def run(chk: core.Check):
         check_sequences(chk, seqs[i:i + 100])
     check_two_instances(chk)
     check_adopted_proposal(chk)
+    check_real_flow_refit(chk, chk.tier == "quick")
 
     def search():
         sub = core.Check(chk.pid, chk.tier, chk.seed)
